@@ -146,6 +146,37 @@ def run(res, tier, seed):
                 if first is None:
                     first = {"what": f"`rva lint {' '.join(mode)}` does not terminate (10 s)", "source": s,
                              "replay_cmd": f"{RVA} lint {' '.join(mode)} {path}"}
+    # include graphs on disk, reached through the CLI reader: the same file under several
+    # spellings of its path (through sub-directories and `..`), self-inclusion, cycles
+    disk = {
+        "respelled-self": {"main.s": '.include "a/../main.s"\n.include "b/../main.s"\nmain:\n    li a7, 10\n    ecall\n',
+                           "a/.keep": "", "b/.keep": ""},
+        "respelled-cycle": {"main.s": '.include "a/x.s"\nmain:\n    li a7, 10\n    ecall\n',
+                            "a/x.s": '.include "../b/y.s"\n.include "../a/../b/y.s"\n',
+                            "b/y.s": '.include "../a/x.s"\n.include "../b/../a/x.s"\n.include "../main.s"\n'},
+        "plain-self": {"main.s": '.include "main.s"\nmain:\n    li a7, 10\n    ecall\n'},
+        "chain": {"main.s": '.include "a/../chain.s"\n', "chain.s": '.include "a/../chain.s"\nnop\n', "a/.keep": ""},
+    }
+    for name, files in disk.items():
+        d = os.path.join(root, "inc_" + name)
+        for rel, text in files.items():
+            os.makedirs(os.path.dirname(os.path.join(d, rel)), exist_ok=True)
+            with open(os.path.join(d, rel), "w") as f:
+                f.write(text)
+        for mode in ([], ["--json"], ["--compact", "--all-files"]):
+            stats["cli_runs"] += 1
+            stats["include_graphs"] += 1
+            cmd = [RVA, "lint"] + mode + [os.path.join(d, "main.s")]
+            try:
+                p = subprocess.run(cmd, stdout=subprocess.DEVNULL, stderr=subprocess.PIPE, env=ENV, timeout=10)
+                err = p.stderr.decode("utf-8", "replace")
+                if ("panicked" in err or p.returncode < 0 or p.returncode == 101) and first is None:
+                    first = {"what": f"include graph on disk '{name}': `rva lint {' '.join(mode)}` crashes "
+                                     f"(rc {p.returncode})", "files": files, "replay_cmd": " ".join(cmd)}
+            except subprocess.TimeoutExpired:
+                if first is None:
+                    first = {"what": f"include graph on disk '{name}': `rva lint {' '.join(mode)}` does not "
+                                     f"terminate (10 s)", "files": files, "replay_cmd": " ".join(cmd)}
     # size scaling: time on N, 2N, 4N of a repeated structure must grow polynomially (< 8x per doubling)
     def big(kind, k):
         if kind == "dots":
